@@ -447,6 +447,8 @@ def sym_int(v):
     if isinstance(v, SymInt):
         return v
     if isinstance(v, SymReal):
+        if getattr(v, "i", None) is not None:
+            return v.i                       # np.floor / np.ceil of an integer
         return SymInt(sym_trunc(v.t))
     if isinstance(v, SymBool):
         return SymInt(I(v))
@@ -708,7 +710,8 @@ class SymRange:
     in-range value named rng<k> — which summarises a loop whose iterations are independent. Concrete ranges run
     normally."""
 
-    def __init__(self, witnesses=None):
+    def __init__(self, witnesses=None, cycle=None):
+        self.cycle = cycle                         # ordinal modulo `cycle` selects the witness (repeated loops)
         self.witnesses = dict(witnesses or {})     # ordinal -> SymInt
         self.used = []                             # (ordinal, lo, hi, index)
         self.membership = []                       # z3 Bools: witness k lies in its range
@@ -732,13 +735,17 @@ class _OneShot:
         k = len(fac.used)
         c = ctx()
         inr = None
-        if k in fac.witnesses:
-            idx = fac.witnesses[k]
+        kk = k % fac.cycle if fac.cycle else k
+        if kk in fac.witnesses:
+            idx = fac.witnesses[kk]
             inr = z3.And(I(self.a) <= I(idx), I(idx) < I(self.b))
             fac.membership.append(inr)
             fac.used.append((k, self.a, self.b, idx))
             # the body is only entered for members: a separate claim shows the witness IS a member
             if not c.branch(inr):
+                # the nested loops inside the skipped body are not reached: keep the ordinals aligned
+                while fac.cycle and len(fac.used) % fac.cycle:
+                    fac.used.append((len(fac.used), None, None, None))
                 return
         else:
             idx = SymInt(z3.Int("rng%d" % k))
